@@ -44,20 +44,37 @@ pub mod sched {
     }
     pub fn unblock_all() { let mut st = ST.lock().unwrap(); if !st.active { return; } for s in st.status.iter_mut() { if *s == 1 { *s = 0; } } }
     pub struct Outcome { pub trace: Vec<(usize, usize)>, pub order: Vec<usize>, pub deadlock: bool, pub panicked: Vec<usize> }
+    fn worker(i: usize, p: Box<dyn FnOnce() + Send>) {
+        ME.with(|m| m.set(i));
+        let r = std::panic::catch_unwind(std::panic::AssertUnwindSafe(move || { wait_turn(ST.lock().unwrap(), i); p() }));
+        let mut st = ST.lock().unwrap();
+        if let Err(e) = &r { if !e.is::<Aborted>() { st.panicked.push(i); } }
+        st.status[i] = 2;
+        for x in st.status.iter_mut() { if *x == 1 { *x = 0; } }   // a thread that ends may be what a parked thread waits for
+        if !st.abort { pick(&mut st); }
+        CV.notify_all();
+    }
+    static SPAWNED: Mutex<Vec<std::thread::JoinHandle<()>>> = Mutex::new(Vec::new());
+    /// a task started by the code under test (`task::spawn`): it becomes one more scheduled thread; returns its index.
+    /// Outside `run` (while the harness builds the initial state) it simply runs to completion first.
+    pub fn spawn(p: Box<dyn FnOnce() + Send>) -> usize {
+        let mut st = ST.lock().unwrap();
+        if !st.active { drop(st); let _ = std::thread::spawn(p).join(); return usize::MAX; }
+        let i = st.status.len();
+        st.status.push(0);
+        drop(st);
+        SPAWNED.lock().unwrap().push(std::thread::spawn(move || worker(i, p)));
+        i
+    }
+    /// number of scheduled threads that have not finished yet, not counting the caller
+    pub fn others_alive() -> usize { let me = ME.with(|m| m.get()); let st = ST.lock().unwrap(); (0..st.status.len()).filter(|i| *i != me && st.status[*i] != 2).count() }
     /// runs the programs under the schedule that follows `prefix` and then always takes the first runnable thread
     pub fn run(progs: Vec<Box<dyn FnOnce() + Send>>, prefix: &[usize]) -> Outcome {
         { let mut st = ST.lock().unwrap(); *st = St { active: true, current: usize::MAX, status: vec![0; progs.len()], prefix: prefix.to_vec(), trace: vec![], order: vec![], abort: false, panicked: vec![], last: usize::MAX, preemptions: 0 }; }
-        let hs: Vec<_> = progs.into_iter().enumerate().map(|(i, p)| std::thread::spawn(move || {
-            ME.with(|m| m.set(i));
-            let r = std::panic::catch_unwind(std::panic::AssertUnwindSafe(move || { wait_turn(ST.lock().unwrap(), i); p() }));
-            let mut st = ST.lock().unwrap();
-            if let Err(e) = &r { if !e.is::<Aborted>() { st.panicked.push(i); } }
-            st.status[i] = 2;
-            if !st.abort { pick(&mut st); }
-            CV.notify_all();
-        })).collect();
+        let hs: Vec<_> = progs.into_iter().enumerate().map(|(i, p)| std::thread::spawn(move || worker(i, p))).collect();
         { let mut st = ST.lock().unwrap(); pick(&mut st); CV.notify_all(); }
         for h in hs { let _ = h.join(); }
+        loop { let h = SPAWNED.lock().unwrap().pop(); match h { Some(h) => { let _ = h.join(); } None => break } }
         let mut st = ST.lock().unwrap();
         st.active = false;
         Outcome { trace: std::mem::take(&mut st.trace), order: std::mem::take(&mut st.order), deadlock: st.abort, panicked: std::mem::take(&mut st.panicked) }
